@@ -689,6 +689,15 @@ def _pram(ctx):
             if isinstance(e, ast.Name) and e.id in loc:
                 return loc[e.id]
             return atom(e)
+        clamps = [c_ for c_ in ast.walk(st[0].value) if isinstance(c_, ast.Call) and (call_name(c_) or "") in
+                  ("max", "min", "abs", "np.maximum", "np.minimum", "np.clip", "np.abs", "np.fmax", "np.fmin", "np.where")]
+        if clamps:
+            # the guideline formula is linear in R_m with a NEGATIVE intercept (table constants are not positive symbols): a clamp
+            # changes it for low-strength material, and the normal form would resolve max(x, 0) to x
+            ctx.violated(fn, st[0], "the mean stress sensitivity is clamped / selected (%s): M_sigma = a_M * 1e-3 * R_m + b_M is negative for "
+                         "low tensile strengths (b_M < 0), the clamp turns the mean stress dependence of the damage parameter off there "
+                         "and the two damage parameters no longer use the same sensitivity" % norm_text(clamps[0])[:70], text="M_sigma clamped in " + fn.name)
+            return
         ms.append((fn, st[0], to_nf(st[0].value, atom=atom_m)))
     if ms[0][2] == ms[1][2] == to_nf(parse_expr("table_a_M*R_m/1000 + table_b_M")):
         ctx.holds(ms[1][0], ms[1][1], "M_sigma = a_M * 1e-3 * R_m + b_M in both damage parameters")
